@@ -93,6 +93,42 @@ def run(ctx):
                         ctx.mark_nontrivial((i, k))
                     lits.append("(%s, %s, %s, %s)" % (c_list([c_list(r, c_Z) for r in data.astype(int).tolist()]), c_list(rows, c_nat), c_bool(biased), c_nat(d)))
                     meta.append((case, k, np.atleast_1d(c.stacked_data_mean).copy(), np.atleast_2d(c.empirical_covariance).copy()))
+        # (a') clusters of many thousand windows (sizes around the usual block / chunk sizes of numerical code): the moments
+        # must still be those of ALL the windows of the cluster.  Integer data, exact integer reference.
+        for j, nbig in enumerate([4097, 8193, 20000] + ([70000] if ctx.thorough else [])):
+            d = 2
+            Tn = nbig + 1500
+            data = rng.integers(-50, 51, size=(Tn, d)).astype(float)
+            data[: Tn // 2] += 7.0          # the two halves differ in level, so between-block scatter matters
+            labels = [0] * Tn
+            other = rng.choice(Tn, size=1500, replace=False)
+            for o in other:
+                labels[int(o)] = 1
+            biased = bool(j % 2)
+            ua = arguments.UserArguments(sparsity_weight=0.1, iteration_limit=1, label_switching_cost=1.0, min_cluster_size=1,
+                                         min_meaningful_covariance=0, num_clusters=2, num_processors=1, biased_covariance=biased, window_size=1)
+            ms = model_state.ModelState.empty_model(ua, data)
+            ms.point_labels = list(labels)
+            case = {"cluster_sizes": [Tn - 1500, 1500], "biased": biased, "data": "integers in [-50, 50] (+7 on the first half), seed %d" % ctx.seed}
+            ctx.count("unit-large")
+            ctx.mark_nontrivial(("large", nbig))
+            with ctx.guard("update_all_cluster_statistics (large cluster)", case):
+                out = cm.update_all_cluster_statistics(ms, data)
+                for k, c in enumerate(out.clusters):
+                    rows = np.array([i for i, l in enumerate(labels) if l == k])
+                    X = data[rows].astype(np.int64)
+                    n = len(rows)
+                    sx = [int(v) for v in X.sum(axis=0)]
+                    sxy = [[int((X[:, a] * X[:, b]).sum()) for b in range(d)] for a in range(d)]
+                    div = n if biased else n - 1
+                    mean = [Fraction(sx[a], n) for a in range(d)]
+                    cov = [[(Fraction(sxy[a][b]) - Fraction(sx[a] * sx[b], n)) / div for b in range(d)] for a in range(d)]
+                    gm, gc = np.atleast_1d(c.stacked_data_mean), np.atleast_2d(c.empirical_covariance)
+                    if not all(close(gm[a], mean[a]) for a in range(d)):
+                        ctx.violation("monitor", "mean of a cluster of %d windows is not the mean of all its windows" % n, {"case": case})
+                    elif not all(close(gc[a, b], cov[a][b], 1e-9) for a in range(d) for b in range(d)):
+                        ctx.violation("monitor", "covariance of a cluster of %d windows is not the %s sample covariance of all its windows (got %r, exact %r)"
+                                      % (n, "biased" if biased else "unbiased", float(gc[0, 0]), float(cov[0][0])), {"case": case})
         # (b) traced runs
         runs = e2e.cached_runs(ctx, e2e.standard_grid(ctx.seed, ctx.thorough), "std")
         runs.append(e2e.traced_run({"N": 2, "W": 2, "K": 2, "beta": 1.0, "lengths": [30], "limit": 2, "m": 1, "data_seed": 1, "rng_seed": 1, "joint": False}))
